@@ -10,6 +10,11 @@ CLAIMED = {
    text="Decides, for every call site reachable from DBlockSync whose callee can fail because of a database or factomd fault (212 sites today), that the returned error is propagated, retried without commit, tolerated as a named sentinel, or aborts; swallowed errors (unbound, never tested, log-only, nil/other variable returned, converted to a plain result, rows.Err missing) are reported by call site. This is the 'no block is committed with part of its effects missing because an error was ignored' clause for all fault positions at once, which no fault-injection sample reaches. It does not decide that the retried run reproduces the fault-free ledger.",
    note="Trusted: x/tools go/ssa; database/sql and the factom client report every fault as a non-nil error. Errors of pure callees (parsers, graders, Convert) are verdicts on chain content, not faults, and are outside the obligation set. Path-insensitive: an error tested on one path is taken as tested.",
    ref="DESIGN.md §2.5, §4 C10"),
+ "C01": dict(
+   technique="order-taint analysis over go/ssa: loop-carried-variable classification of every range-over-map loop, forward taint of slices built in map order up to a total-order sanitiser, forward slice of wall-clock values to database sinks, goroutine write-footprint check",
+   text="Decides that no hash-map iteration order, partial-key sort of a map-derived slice, wall-clock value, randomness or goroutine scheduling can reach a ledger table from block processing: all map-range loops reachable from DBlockSync (11 today) are classified order-insensitive or produce an order-tainted slice that must be totally sorted on the elements' unique key (or measured / accessed as a guarded singleton) before any element use; all clock reads flow to logs or to pn_sync_version.unix_timestamp only; the one goroutine pool writes index-disjoint slots. Quantifies over every map seed and schedule at once. Does not decide SQLite row order, grader determinism or float behaviour across architectures.",
+   note="Trusted: go/ssa; sanitiser table (transactionid.SortTxIDS, sort.Strings, sort.Slice with a comparator reading the unique-key field); commutative sink table (AddToBalance, keyed UPDATE/INSERT; row ids are outside the property).",
+   ref="DESIGN.md §2.7 E2, §4 C01"),
  "C02": dict(
    technique="typestate of the block *sql.Tx over the SSA CFG of the sync root (dominance, reachability-avoiding) + receiver-class analysis of every SQL write statement reachable from block processing + escape check of *sql.Tx + schema rules from the embedded SQL",
    text="Decides that the program hands SQLite exactly one transaction per block containing all and only that block's writes plus the height record: every write reachable from SyncBlock/NullifyBurnAddress/InsertSynced runs on the caller's *sql.Tx (45+ statements, QueryAble arguments resolved per call site); in DBlockSync the order block -> InsertSynced -> Commit holds by dominance, Commit is confined to nil-error branches, every error branch rolls back, no path leaks the open transaction, the in-memory height can never get ahead of a failed block, the height applied is synced+1; Commit/Rollback exist nowhere else and the *sql.Tx never escapes; pn_sync_version is keyed by height and written by plain INSERT; start-up resumes from the persisted height. Every crash point inside a block is covered at once because all of them fall inside that one transaction. What SQLite does at a kill is trusted, not decided.",
